@@ -121,6 +121,22 @@ class GridInterpolationKernel(GridKernel):
         )
         self.register_buffer("has_initialized_grid", torch.tensor(has_initialized_grid, dtype=torch.bool))
 
+    def _load_from_state_dict(self, state_dict, prefix, *args, **kwargs):
+        super()._load_from_state_dict(state_dict, prefix, *args, **kwargs)
+        if self.grid_is_dynamic and self.has_initialized_grid.item():
+            # The bounds an automatically fitted grid was fitted to are a plain attribute and not part of the state,
+            # while the grid itself and the "has been fitted" flag are: recover the bounds from the loaded grid
+            # (create_grid extends the bounds by one spacing on either side)
+            grid_bounds = []
+            for proj, grid_size in zip(self.grid, self.grid_sizes):
+                first, last = float(proj[0]), float(proj[-1])
+                spacing = (last - first) / grid_size
+                # (the grid is stored in single precision: err on the wide side, so that data the grid was fitted to
+                # never look out of bounds after a round trip)
+                slack = 1e-6 * (last - first)
+                grid_bounds.append((first + spacing - slack, last - spacing + slack))
+            self.grid_bounds = tuple(grid_bounds)
+
     @property
     def _tight_grid_bounds(self):
         grid_spacings = tuple((bound[1] - bound[0]) / self.grid_sizes[i] for i, bound in enumerate(self.grid_bounds))
